@@ -50,7 +50,7 @@ KINDS = {"Body": "KBody", "Div": "KDiv", "P": "KP", "Span": "KSpan", "Ruby": "KR
          "Rbc": "KRbc", "Rtc": "KRtc", "Br": "KBr", "Region": "KRegion"}
 
 
-OPAQUE = ("FontFamily", "Opacity", "LuminanceGain")
+OPAQUE = ("FontFamily",)
 
 
 class StyleLit:
@@ -221,7 +221,8 @@ class TimeCtx:
         self.fr_attr, self.frm, self.tr_attr = fr_attr, frm, tr_attr
         self.fr = F(fr_attr if fr_attr is not None else 30) * (F(*frm) if frm else 1)
         self.tr = F(tr_attr) if tr_attr is not None else (self.fr if fr_attr is not None else F(1))
-        self.tick_default_differs = tr_attr is None and fr_attr is not None and self.fr != 1   # the code uses 1
+        # the tick rate comes from ttp:frameRate (TTML2 7.2.11): the shape of the repaired finding tickrate-default
+        self.tick_default_differs = tr_attr is None and fr_attr is not None and self.fr != 1
 
 
 def time_for(rng, ctx, v, allow_tick=True):
@@ -277,16 +278,16 @@ def q(ns, local): return f"{{{ns}}}{local}" if ns else local
 class DocGen:
     """grammar-based TTML documents for the timing tie.  `table` maps every generated time-attribute string to
     the abstract expression it was printed from."""
-    def __init__(self, rng, p_seq=0.18, p_indef_in_seq=0.04, p_tick_trigger=0.03, styles=False):
+    def __init__(self, rng, p_seq=0.2, p_indef_in_seq=0.25, styles=False):
         self.rng = rng; self.table = {}; self.ntext = 0
-        self.p_seq = p_seq; self.p_indef_in_seq = p_indef_in_seq; self.p_tick_trigger = p_tick_trigger
+        self.p_seq = p_seq; self.p_indef_in_seq = p_indef_in_seq
         self.flags = set()
         rng_ = rng
         fr_attr = rng_.choice([None, None, 24, 25, 30, 50, 60])
         frm = rng_.choice([None, None, None, (1000, 1001), (1, 1), (999, 1000)])
         tr_attr = rng_.choice([None, None, 1, 10, 1000, 90000, 10000000])
         self.ctx = TimeCtx(fr_attr, frm, tr_attr)
-        self.allow_tick = (not self.ctx.tick_default_differs) or rng_.random() < p_tick_trigger
+        self.allow_tick = True
         self.regions = []; self.style_ids = []
 
     # -- times
@@ -376,6 +377,7 @@ class DocGen:
             if k == "ruby":
                 self.ruby(el); continue
             c = et.SubElement(el, q(NS_TT, k))
+            if k == "span" and rng.random() < 0.03: c.set(q(NS_TTS, "ruby"), rng.choice(["bogus", "rt", "Container"])); self.flags.add("bad-ruby")
             if not in_ruby:
                 definite = seq and (i < n - 1) and rng.random() >= self.p_indef_in_seq
                 self.timing(c, seq, definite)
@@ -442,7 +444,7 @@ class DocGen:
                 r.set(q(NS_XML, "id"), rid); self.regions.append(rid)
                 if rng.random() < 0.4: self.timing(r)
                 if rng.random() < 0.05: r.set(q(NS_TTS, "display"), "none")
-                if rng.random() < 0.02: r.set("timeContainer", "seq"); self.flags.add("maybe-seq-indef")
+                if rng.random() < 0.06: r.set("timeContainer", "seq"); self.flags.add("seq-region")
                 self.sets(r, False)
         if rng.random() < 0.97:
             body = et.SubElement(tt, q(NS_TT, "body"))
@@ -459,6 +461,11 @@ def _local(e): return e.tag.split("}")[1] if isinstance(e.tag, str) and "}" in e
 RUBY_MIXED = {None: True, "base": True, "text": True, "delimiter": True, "container": False, "baseContainer": False, "textContainer": False}
 
 
+def ruby_mixed(e):
+    """is_mixed of the class a span is read as; a tts:ruby value that is not one of the six keywords is ignored (plain span)"""
+    return RUBY_MIXED.get(e.get(q(NS_TTS, "ruby")), True)
+
+
 def mirror_boundaries(tt, table, ctx):
     """absolute begin/end times of all timed elements per the specification (used to pick probe times)"""
     tv = lambda s: None if s is None or s not in table else ast_value(table[s], ctx.fr, ctx.tr)
@@ -467,14 +474,14 @@ def mirror_boundaries(tt, table, ctx):
     def known(e):
         if not (isinstance(e.tag, str) and e.tag.startswith("{" + NS_TT + "}")): return False
         l = _local(e)
-        if l == "span": return e.get(q(NS_TTS, "ruby")) in RUBY_MIXED
+        if l == "span": return True
         if l == "region": return e.get(q(NS_XML, "id")) is not None
         return l in ("body", "div", "p", "br", "set")
 
     def interval(pseq, sync, e):
         b = sync + (tv(e.get("begin")) or 0)
         l = _local(e); atomic = l in ("br", "set", "region")
-        mixed = l == "p" or (l == "span" and RUBY_MIXED.get(e.get(q(NS_TTS, "ruby")), False))
+        mixed = l == "p" or (l == "span" and ruby_mixed(e))
         seq = e.get("timeContainer") == "seq"
         if atomic and not pseq: idur = None
         elif seq:
@@ -546,7 +553,7 @@ PROP_VALUES = {
     (NS_TTS, "display"): (["auto", "auto", "none"], ["block"]),
     (NS_TTS, "displayAlign"): (["before", "center", "after"], ["middle"]),
     (NS_TTS, "extent"): (["50% 20%", "640px 480px", "10c 2c", "auto", "1rw 1rh"], ["50%", "a b", "1em 1em"]),
-    (NS_ITTS, "fillLineGap"): (["true", "false"], []),
+    (NS_ITTS, "fillLineGap"): (["true", "false"], ["yes", "TRUE", "1"]),
     (NS_TTS, "fontFamily"): (["Arial", "monospaceSerif, Arial", "\"Times New Roman\"", "default", "sansSerif"], [""]),
     (NS_TTS, "fontSize"): (["100%", "1c", "16px", "1.5em", "2rh"], ["big", "12"]),
     (NS_TTS, "fontStyle"): (["normal", "italic", "oblique"], ["slanted"]),
@@ -559,7 +566,7 @@ PROP_VALUES = {
     (NS_TTS, "origin"): (["10% 10%", "0px 0px", "auto", "2c 3c"], ["10%", "1em 1em"]),
     (NS_TTS, "overflow"): (["visible", "hidden"], ["scroll"]),
     (NS_TTS, "padding"): (["1c", "1% 2%", "1px 2px 3px", "1px 2px 3px 4px"], ["1", "1px 2px 3px 4px 5px"]),
-    (NS_TTS, "position"): (["center", "left top", "10% 20%", "right 10px bottom 5%", "top"], ["10"]),
+    (NS_TTS, "position"): (["center", "left top", "10% 20%", "right 10px bottom 5%", "top"], ["10", " "]),
     (NS_TTS, "rubyAlign"): (["center", "spaceAround"], ["left"]),
     (NS_TTS, "rubyPosition"): (["before", "after", "outside"], ["under"]),
     (NS_TTS, "rubyReserve"): (["none", "both", "before 1em", "outside 50%"], ["x", "both 1"]),
@@ -567,41 +574,52 @@ PROP_VALUES = {
     (NS_TTS, "showBackground"): (["always", "whenActive"], ["never"]),
     (NS_TTS, "textAlign"): (["start", "center", "end", "left", "right"], ["justify"]),
     (NS_TTS, "textCombine"): (["none", "all"], ["some"]),
-    (NS_TTS, "textDecoration"): (["none", "underline", "noUnderline lineThrough", "overline noLineThrough"], []),
+    (NS_TTS, "textDecoration"): (["none", "underline", "noUnderline lineThrough", "overline noLineThrough"], ["blink", "underline blink", "under line"]),
     (NS_TTS, "textEmphasis"): (["none", "auto", "filled circle", "open dot before", "sesame red after", "filled"], ["x y"]),
     (NS_TTS, "textOutline"): (["none", "1px", "red 2px", "#00ff00 10%"], ["red", "1px red"]),
-    (NS_TTS, "textShadow"): (["none", "1px 1px", "1px 1px 2px", "1px 1px red", "1px 1px 2px red", "1px 1px,2px 2px"], ["1px"]),
+    (NS_TTS, "textShadow"): (["none", "1px 1px", "1px 1px 2px", "1px 1px red", "1px 1px 2px red", "1px 1px,2px 2px", "1px 1px, 2px 2px", "1px 1px 2px red , 2em 2em"], ["1px", "1px 1px,"]),
     (NS_TTS, "unicodeBidi"): (["normal", "embed", "bidiOverride"], ["isolate"]),
     (NS_TTS, "visibility"): (["visible", "hidden"], ["collapse"]),
     (NS_TTS, "wrapOption"): (["wrap", "noWrap"], ["nowrap"]),
     (NS_TTS, "writingMode"): (["lrtb", "rltb", "tbrl", "tblr", "lr", "rl", "tb"], ["bt"]),
 }
-# values that are well-formed TTML but that the reader does not accept / that abort the read: the triggers of recorded findings
-SHADOW_COMMA_SPACE = "1px 1px, 2px 2px"
+# values that parse but that the model rejects (ValueError of set_style: logged and ignored wherever the attribute stands; in a referenced
+# or nested <style> that used to abort the read - the repaired finding style-invalid-value-abort)
 MODEL_INVALID = {((NS_TTS, "extent"), "1em 1em"), ((NS_TTS, "origin"), "1em 1em")}
 
 
 class StyleDocGen:
-    def __init__(self, rng, p_bad=0.08, p_trigger=0.02):
-        self.rng = rng; self.p_bad = p_bad; self.p_trigger = p_trigger
+    def __init__(self, rng, p_bad=0.08):
+        self.rng = rng; self.p_bad = p_bad; self.graph_depth = 0; self.forward_refs = 0
         self.wf = {}; self.flags = set(); self.ntext = 0; self.regions = []; self.ids = []
         self.keys = sorted(PROP_VALUES)
 
-    def put(self, el, n, in_style=False):
+    # a few properties with many distinct values: styles that draw from this pool conflict along different reference paths, so that
+    # the precedence among chained references is observable
+    CONFLICT = {(NS_TTS, "color"): ["#010101", "#020202", "#030303", "#040404", "#050505", "#060606", "#070707", "#080808"],
+                (NS_TTS, "backgroundColor"): ["#100000", "#200000", "#300000", "#400000", "#500000", "#600000"],
+                (NS_TTS, "fontSize"): ["10px", "20px", "30px", "40px", "50px", "60px"],
+                (NS_TTS, "lineHeight"): ["110%", "120%", "130%", "140%", "150%"],
+                (NS_TTS, "textAlign"): ["start", "center", "end"]}
+
+    def put(self, el, n, in_style=False, pool=None):
         rng = self.rng
-        for key in rng.sample(self.keys, n):
+        keys = self.keys if pool is None else sorted(pool)
+        for key in rng.sample(keys, min(n, len(keys))):
             good, bad = PROP_VALUES[key]
+            if pool is not None and rng.random() < 0.9: good = pool[key]
             if bad and rng.random() < self.p_bad:
                 v = rng.choice(bad); ok = False
-                if (key, v) in MODEL_INVALID:
-                    if rng.random() > self.p_trigger * 5: continue
-                    if in_style: self.flags.add("style-invalid-value")
-            elif key == (NS_TTS, "textShadow") and rng.random() < self.p_trigger:
-                v = SHADOW_COMMA_SPACE; ok = True; self.flags.add("textshadow-comma-space")
+                if (key, v) in MODEL_INVALID and in_style: self.flags.add("style-invalid-value")
             else:
                 v = rng.choice(good); ok = True
+                if key == (NS_TTS, "textShadow") and ", " in v: self.flags.add("textshadow-comma-space")
             name = q(*key)
             el.set(name, v); self.wf[(name, v)] = ok
+        if in_style and rng.random() < 0.06:
+            # a value that parses but that the model rejects, in a referenced or nested <style> (the repaired finding style-invalid-value-abort)
+            name = q(NS_TTS, rng.choice(["extent", "origin"])); el.set(name, "1em 1em"); self.wf[(name, "1em 1em")] = False
+            self.flags.add("style-invalid-value")
 
     def count(self):
         rng = self.rng; n = 0
@@ -645,18 +663,35 @@ class StyleDocGen:
         styling = et.SubElement(head, q(NS_TT, "styling"))
         for _ in range(rng.choice([0, 0, 1, 2])):
             self.put(et.SubElement(styling, q(NS_TT, "initial")), rng.randint(1, 3))
-        nst = rng.choice([0, 1, 2, 3, 4, 6])
+        # the style graph: a DAG with respect to a hidden random order (depth up to 4 and more, diamonds), declared in an order that is
+        # independent of it: a style may be declared before or after the styles it references; rarely arbitrary references (loops)
+        nst = rng.choice([0, 1, 2, 3, 4, 5, 6, 8])
         names = [f"s{i}" for i in range(nst)]
+        hidden = list(names); rng.shuffle(hidden)
+        rank = {n_: k for k, n_ in enumerate(hidden)}
+        conflict = rng.random() < 0.7
+        depth = {}
+        for name in reversed(hidden):
+            later = hidden[rank[name] + 1:]
+            refs = []
+            if later and rng.random() < 0.75:
+                refs = [rng.choice(later) for _ in range(rng.choice([1, 1, 2, 2, 3]))]
+                if rng.random() < 0.08: refs.insert(rng.randrange(len(refs) + 1), "missing")
+            if names and rng.random() < 0.04: refs.append(rng.choice(names)); self.flags.add("maybe-loop")
+            depth[name] = (refs, 1 + max([depth[r][1] for r in refs if r in depth] or [0]) if not any(r == name for r in refs) else 1)
+        self.graph_depth = max([d for _, d in depth.values()] or [0])
+        self.forward_refs = 0
         for i, name in enumerate(names):
             st = et.SubElement(styling, q(NS_TT, "style"))
             r = rng.random()
-            if r < 0.9: st.set(q(NS_XML, "id"), name)
-            elif r < 0.95 and i: st.set(q(NS_XML, "id"), names[rng.randrange(i)])      # duplicate id
-            self.put(st, self.count(), in_style=True)
-            if i and rng.random() < 0.5:
-                pool = names[:i] if rng.random() < 0.9 else names                 # mostly a DAG; sometimes forward references and loops
-                refs = [rng.choice(pool + (["missing"] if rng.random() < 0.1 else [])) for _ in range(rng.randint(1, 3))]
+            if r < 0.92: st.set(q(NS_XML, "id"), name)
+            elif r < 0.96 and i: st.set(q(NS_XML, "id"), names[rng.randrange(i)])      # duplicate id
+            if conflict: self.put(st, rng.randint(1, 3), in_style=True, pool=self.CONFLICT)
+            if not conflict or rng.random() < 0.3: self.put(st, self.count(), in_style=True)
+            refs = depth[name][0]
+            if refs:
                 st.set("style", " ".join(refs))
+                self.forward_refs += sum(1 for x in refs if x in names and names.index(x) > i)
         self.ids = names
         lay = et.SubElement(head, q(NS_TT, "layout"))
         for i in range(rng.choice([0, 1, 2, 3])):
@@ -683,11 +718,11 @@ def style_observation(tt, doc):
     def known(e):
         if not (isinstance(e.tag, str) and e.tag.startswith("{" + NS_TT + "}")): return False
         l = _local(e)
-        if l == "span": return e.get(q(NS_TTS, "ruby")) in RUBY_MIXED
+        if l == "span": return True
         return l in ("body", "div", "p", "br")
     def mixed(e):
         l = _local(e)
-        return l == "p" or (l == "span" and RUBY_MIXED.get(e.get(q(NS_TTS, "ruby")), False))
+        return l == "p" or (l == "span" and ruby_mixed(e))
     ok = [True]
     def walk(x, me):
         out.append(me)
